@@ -137,9 +137,13 @@ class TransformedTargetForecaster(
         -------
         self : returns an instance of self.
         """
-        self.steps_ = self._check_steps()
+        steps_ = self._check_steps()
+        # `_set_y_X` passes the cutoff on to the fitted final forecaster in `steps_`:
+        # it must not reach the (un-cloned) forecaster object the user passed in
+        self.steps_ = None
         self._set_y_X(y, X)
         self._set_fh(fh)
+        self.steps_ = steps_
 
         # transform
         yt = check_y(y)
